@@ -172,10 +172,13 @@ inline int main_impl(int argc, char** argv, const char* harness) {
   double t0 = now_s(); double deadline = t0 + opt.budget_s;
   std::vector<SysResult> rs; bool all_complete = true; uint64_t states = 0, transitions = 0, executions = 0;
   // a sanitizer abort kills the process: run every system in a forked child and attribute a crash to what was in flight
+  size_t nsys = 0, isys = 0; for (auto& e : registry()) if (only.empty() || e.name == only) nsys++;
   for (auto& e : registry()) {
     if (!only.empty() && e.name != only) continue;
-    double left = deadline - now_s(); if (left < 1) { all_complete = false; break; }
-    Options o = opt; o.budget_s = left;
+    double left = deadline - now_s(); if (left < 1) left = 1;
+    // the time budget is shared fairly: every system gets an equal share of what is left (breadth first, so every depth
+    // below the one in progress is complete when the share runs out)
+    Options o = opt; o.budget_s = left / (double)(nsys - isys); isys++;
     int pfd[2]; if (pipe(pfd)) return 2;
     g_inflight = (InFlight*)mmap(nullptr, sizeof(InFlight) * 64, PROT_READ | PROT_WRITE, MAP_SHARED | MAP_ANONYMOUS, -1, 0);
     memset((void*)g_inflight, 0, sizeof(InFlight) * 64);
